@@ -116,17 +116,15 @@ TraceRet ==
           ELSE UNCHANGED rep
   /\ Return(P)
 
-\* C10: the values handed out by the shared counter since the last reset, in
-\* the order the hook logged them.  They are explainable by the atomic Genvar
-\* action of the spec iff some ordering of them is 1, 2, ..., n -- i.e. iff
-\* they are pairwise distinct and cover 1..n (a lost update shows as a
-\* duplicate, a torn one as a gap).
+\* C10: the identifiers the shared counter handed to ONE compilation (hook H3, attributed to the goroutine
+\* that was compiling), in the order they were handed out.  They are explainable by the spec's atomic Genvar
+\* action iff they are pairwise distinct (NamesDistinctPerCompilation): another compilation running at the
+\* same time may take values in between, but can never make this one see the same value twice.
 TraceGenvars ==
   /\ IsEvent("genvars")
   /\ pc[P] = "idle"
   /\ LET vals == Tr[l].vals IN
-       /\ \A i, j \in 1..Len(vals) : i # j => vals[i] # vals[j]
-       /\ {vals[i] : i \in 1..Len(vals)} = 1..Len(vals)
+       \A i, j \in 1..Len(vals) : i # j => vals[i] # vals[j]
   /\ UNCHANGED <<vars, rep>>
 
 TraceEnd ==
